@@ -86,8 +86,15 @@ def str_method(frame, obj, name, args):
         for c in obj.cs:
             if isinstance(c, int): ok = chr(c).isdigit()
             else:
-                if not eng.branch(c < 128): raise Unsupported('non-ASCII isdigit()')
-                ok = eng.branch(z3.And(c >= 48, c <= 57))
+                if not eng.branch(c < 128):
+                    for x in getattr(eng, 'nonascii_domain', ()):
+                        if eng.branch(c == x):
+                            ok = chr(x).isdigit()
+                            break
+                    else:
+                        raise Unsupported('non-ASCII isdigit() outside the declared domain')
+                else:
+                    ok = eng.branch(z3.And(c >= 48, c <= 57))
             if not ok: return False
         return len(obj.cs) > 0
     if name in ('startswith', 'endswith') and len(args) == 1 and isinstance(args[0], str):
@@ -155,7 +162,14 @@ def cmp2(self, op, a, b):
     if op in (ast.In, ast.NotIn) and isinstance(a, SymStr) and isinstance(b, str):
         # single char in a string of candidates
         if len(a) != 1: raise Unsupported('substring test on SymStr')
-        found = any(self.eng.truth(self.eng.eq(a, ch)) for ch in b)
+        c = a.cs[0]
+        if isinstance(c, int):
+            found = chr(c) in b
+        elif not b:
+            found = False
+        else:
+            # one fork for the whole membership test (not one per candidate character)
+            found = self.eng.branch(z3.Or(*[c == ord(ch) for ch in b]))
         return found if op is ast.In else not found
     return _old_cmp(self, op, a, b)
 Frame.cmp = cmp2
